@@ -3537,6 +3537,29 @@ impl<'source> Parser<'source> {
         // Nested items aren't allowed, flatten the returned items into a single vec
         let items = self.consume_import_items(&ExpressionContext::permissive())?;
 
+        // The root of an import may be provided by the module's exports or by a wildcard import,
+        // so an id that isn't locally assigned counts as a non-local access. This ensures that a
+        // function which imports gets access to its module's non-locals.
+        let root_id = match from.first() {
+            Some(root) => match &self.ast.node(*root).node {
+                Node::Id(id, ..) => vec![*id],
+                _ => vec![],
+            },
+            None => items
+                .iter()
+                .filter_map(|item| match &self.ast.node(item.item).node {
+                    Node::Id(id, ..) => Some(*id),
+                    _ => None,
+                })
+                .collect(),
+        };
+        for id in root_id {
+            let frame = self.frame_mut()?;
+            if !frame.ids_assigned_in_frame.contains(&id) {
+                frame.accessed_non_locals.insert(id);
+            }
+        }
+
         // Mark any imported ids as locally assigned
         for item in items.iter() {
             let maybe_id = if let Node::Id(id, ..) = &self.ast.node(item.item).node {
